@@ -100,6 +100,29 @@ type Exec struct {
 type Worker struct {
 	id     int
 	solver *smt.Solver
+	alt    []*smt.Solver // fallback back ends for unknown obligation results
+}
+
+// checkObligation: primary back end first; on unknown the other back ends are tried (portfolio).
+func (m *M) checkObligation(as []*smt.Term, want []*smt.Term) (smt.Result, smt.Model) {
+	res, model, _ := m.w.solver.Check(as, want)
+	if res != smt.Unknown {
+		return res, model
+	}
+	if m.w.alt == nil {
+		for _, be := range []string{"z3-new", "cvc5", "z3"} {
+			if be != m.ex.Cfg.Backend {
+				m.w.alt = append(m.w.alt, smt.NewSolver(be, m.ex.Cfg.TimeoutMs))
+			}
+		}
+	}
+	for _, s := range m.w.alt {
+		res, model, _ = s.Check(as, want)
+		if res != smt.Unknown {
+			return res, model
+		}
+	}
+	return smt.Unknown, nil
 }
 
 // M is a worker executing a state.
@@ -171,7 +194,12 @@ func (ex *Exec) Run() {
 		go func(id int) {
 			defer wg.Done()
 			w := &Worker{id: id, solver: smt.NewSolver(ex.Cfg.Backend, ex.Cfg.TimeoutMs)}
-			defer w.solver.Close()
+			defer func() {
+				w.solver.Close()
+				for _, a := range w.alt {
+					a.Close()
+				}
+			}()
 			for {
 				ex.mu.Lock()
 				for len(ex.work) == 0 && ex.active > 0 && atomic.LoadInt32(&ex.stop) == 0 {
@@ -544,7 +572,7 @@ func (m *M) globalObj(g *ssa.Global) int {
 	if g.Pkg != nil {
 		pkg = g.Pkg.Pkg.Path()
 	}
-	ok := g.Pkg == m.ex.Harness && strings.HasPrefix(g.Name(), "ghost")
+	ok := (g.Pkg == m.ex.Harness && strings.HasPrefix(g.Name(), "ghost")) || strings.HasPrefix(g.Name(), "init$")
 	for _, p := range m.ex.Cfg.InitPkgs {
 		if p == pkg {
 			ok = true
@@ -1212,11 +1240,11 @@ func (m *M) obligation(cond *smt.Term, tag string, implicit bool) {
 		res = smt.Unsat
 	} else {
 		nc := smt.Not(cond)
-		res, _, _ = m.w.solver.Check(append(sliceFor(m.st.PC, nc), nc), nil)
+		res, _ = m.checkObligation(append(sliceFor(m.st.PC, nc), nc), nil)
 		if res == smt.Sat {
 			// full query for a complete model of all inputs
 			as := append(append([]*smt.Term(nil), m.st.PC...), nc)
-			res, model, _ = m.w.solver.Check(as, m.nondetWants())
+			res, model = m.checkObligation(as, m.nondetWants())
 		}
 	}
 	ex.mu.Lock()
